@@ -23,7 +23,7 @@ RELEVANT_STEP = {"RealReadFails", "FailReported"}
 
 
 KINDS = ["backup", "prune", "repair_index_all", "prune", "repair_snapshots", "forget", "repair_index", "prune",
-         "config", "merge", "backup", "rewrite", "add_key", "prune", "repair_index_all"]
+         "config", "merge", "backup", "rewrite", "add_key", "prune", "repair_index_all", "copy_into"]
 
 
 def under_test(rng, i, nsn, alive, files, kd):
@@ -48,6 +48,9 @@ def under_test(rng, i, nsn, alive, files, kd):
         return pre, {"cmd": "add_key"}
     if kind == "merge":
         return pre, {"cmd": "merge"}
+    if kind == "copy_into":
+        # partly the blobs this repository already has, partly new ones
+        return pre, {"cmd": "copy_into", "files": gen.evolve(rng, files)}
     if kind == "rewrite":
         return pre, {"cmd": "rewrite", "glob": rng.choice(["a", "b", "x", "*"]), "forget": rng.random() < 0.5}
     return pre, {"cmd": "prune", "opts": gen.prune_opts(rng, kd, allow_instant=True, allow_early=False)}
